@@ -644,8 +644,12 @@ class BaseCarver(BaseDiscretizer):
             disable=not self.verbose,
             desc="Testing robustness    ",
         ):
+            # groups in the order of the combination (groupers sort groups by label)
+            group_order = [group[0] for group in association["combination"]]
+
             # computing target rate and frequency per value
             train_rates = self._printer(association["xagg"])  # pylint: disable=E1101
+            train_rates = train_rates.reindex(group_order)
 
             # viability on train sample:
             # - target rates are distinct for consecutive modalities
@@ -678,6 +682,7 @@ class BaseCarver(BaseDiscretizer):
 
                     # computing target rate and frequency per modality
                     dev_rates = self._printer(grouped_xagg_dev)  # pylint: disable=E1101
+                    dev_rates = dev_rates.reindex(group_order)
 
                     # viability on dev sample:
                     # - grouped values have the same ranks in train/test
